@@ -3,6 +3,7 @@ package calico
 import (
 	"fmt"
 	"net"
+	"net/netip"
 	"regexp"
 	"sort"
 	"strings"
@@ -15,9 +16,12 @@ import (
 	"github.com/projectcalico/calico/confd/pkg/backends/types"
 	"github.com/projectcalico/calico/felix/calc"
 	felixconfig "github.com/projectcalico/calico/felix/config"
+	felixproto "github.com/projectcalico/calico/felix/proto"
+	"github.com/projectcalico/calico/libcalico-go/lib/apis/internalapi"
 	"github.com/projectcalico/calico/libcalico-go/lib/backend/api"
 	"github.com/projectcalico/calico/libcalico-go/lib/backend/model"
 	"github.com/projectcalico/calico/libcalico-go/lib/backend/syncersv1/updateprocessors"
+	cnet "github.com/projectcalico/calico/libcalico-go/lib/net"
 	"github.com/projectcalico/calico/zzverif/vk"
 )
 
@@ -87,11 +91,12 @@ type c28Case struct {
 }
 
 type c28Result struct {
-	FelixOwns map[string]bool // pool cidr -> Felix programs its cluster routes
-	BirdOwns  map[string]bool // pool cidr -> BIRD's kernel filter accepts its routes
-	Kernel    []string
+	FelixOwns               map[string]bool // pool cidr -> Felix programs its cluster routes
+	BirdOwns                map[string]bool // pool cidr -> BIRD's kernel filter accepts its routes
+	Kernel                  []string
 	FelixIPIP, FelixNoEncap bool
-	Encap     felixconfig.Encapsulation
+	FelixRoutes             map[string]felixproto.IPPoolType // block CIDR -> pool type of the remote-workload route the calc graph emitted
+	Encap                   felixconfig.Encapsulation
 }
 
 var c28StmtRe = regexp.MustCompile(`^\s*if \(\s*net ~ (\S+)\s*\) then \{ (?:[^;{}]*; )*?(accept|reject); \}`)
@@ -173,11 +178,20 @@ func c28Run(cs c28Case, pools []c28Pool) (res c28Result, err error) {
 	}
 	res.Encap = *cb.last
 	res.FelixIPIP, res.FelixNoEncap = cfg.ProgramIPIPClusterRoutes(), cfg.ProgramNoEncapClusterRoutes()
+	// The real calculation graph, wired as Felix's daemon does (config.Encapsulation = the resolver's output):
+	// does it emit a remote-workload route for a block of each pool?  (NewCalculationGraph only builds the
+	// L3RouteResolver when some route type is Felix's to program.)
+	routes, e := c28FelixRoutes(cfg, res.Encap, poolKVs, cs.IPv)
+	if e != nil {
+		return res, e
+	}
+	res.FelixRoutes = routes
 	// How the dataplane uses these (felix/dataplane/driver.go copies the two accessors and Encapsulation into
 	// the dataplane config; int_dataplane.go creates the no-encap route manager iff
 	// ProgramNoEncapClusterRoutes && NoEncapNeeded; ipip_mgr.go feeds its route manager iff
 	// ProgramIPIPClusterRoutes; the VXLAN manager exists iff VXLAN is enabled):
 	for cidr, p := range cidrOf {
+		rt, emitted := routes[c28BlockOf(cidr)]
 		switch p.Class {
 		case "vxlan":
 			if cs.IPv == 4 {
@@ -185,39 +199,29 @@ func c28Run(cs c28Case, pools []c28Pool) (res c28Result, err error) {
 			} else {
 				res.FelixOwns[cidr] = res.Encap.VXLANEnabledV6
 			}
+			res.FelixOwns[cidr] = res.FelixOwns[cidr] && emitted && rt == felixproto.IPPoolType_VXLAN
 		case "ipip":
-			res.FelixOwns[cidr] = res.Encap.IPIPEnabled && res.FelixIPIP
+			res.FelixOwns[cidr] = res.Encap.IPIPEnabled && res.FelixIPIP && emitted && rt == felixproto.IPPoolType_IPIP
 		case "noencap":
-			res.FelixOwns[cidr] = res.Encap.NoEncapNeeded && res.FelixNoEncap
+			res.FelixOwns[cidr] = res.Encap.NoEncapNeeded && res.FelixNoEncap && emitted && rt == felixproto.IPPoolType_NO_ENCAP
 		}
 	}
 
 	// ---- confd / BIRD ----
-	c := &client{cache: map[string]string{}, peeringCache: map[string]string{}, configCache: map[int]*bgpConfigCache{}}
-	if cs.BGP != "" || true {
-		bc := v3.NewBGPConfiguration()
-		bc.ObjectMeta = metav1.ObjectMeta{Name: "default"}
-		if cs.BGP != "" {
-			v := cs.BGP
-			bc.Spec.ProgramClusterRoutes = &v
-		}
-		var b1, b2 bool
-		var reasons []string
-		if cs.BGP == "" && cs.NoExport {
-			// also cover "no BGPConfiguration resource at all"
-			c.updateBGPConfigCache(globalConfigName, nil, &b1, &b2, &reasons)
-		} else {
-			c.updateBGPConfigCache(globalConfigName, bc, &b1, &b2, &reasons)
-		}
+	bird := newC28Bird()
+	if cs.BGP == "" && cs.NoExport {
+		// also cover "no BGPConfiguration resource at all"
+	} else {
+		bird.setBGP(globalConfigName, true, cs.BGP)
 	}
 	for _, kv := range poolKVs {
-		c.updateCache(api.UpdateTypeKVNew, kv)
+		bird.apply(api.Update{KVPair: *kv, UpdateType: api.UpdateTypeKVNew})
 	}
-	c.cache[fmt.Sprintf("/calico/bgp/v1/host/%s/network_v4", NodeName)] = "1.1.1.0/24"
-	bcfg := &types.BirdBGPConfig{NodeName: NodeName}
-	if e := c.processIPPools(c.getBGPProcessorContext(), bcfg, cs.IPv); e != nil {
-		return res, fmt.Errorf("processIPPools: %v", e)
+	kern, e := bird.kernel(cs.IPv)
+	if e != nil {
+		return res, e
 	}
+	bcfg := &types.BirdBGPConfig{KernelFilterForIPPools: kern}
 	res.Kernel = bcfg.KernelFilterForIPPools
 	for cidr := range cidrOf {
 		ip, n, _ := net.ParseCIDR(cidr)
@@ -229,6 +233,9 @@ func c28Run(cs c28Case, pools []c28Pool) (res c28Result, err error) {
 			blk = 122
 		}
 		route := fmt.Sprintf("%s/%d", ip.String(), blk)
+		if route != c28BlockOf(cidr) {
+			return res, fmt.Errorf("harness: block mismatch %s %s", route, c28BlockOf(cidr))
+		}
 		acc, e := c28BirdVerdict(res.Kernel, route)
 		if e != nil {
 			return res, e
@@ -238,24 +245,319 @@ func c28Run(cs c28Case, pools []c28Pool) (res c28Result, err error) {
 	return res, nil
 }
 
+// c28BlockOf: the IPAM block (first /26 or /122) of a pool, affine to the remote node.
+func c28BlockOf(cidr string) string {
+	ip, n, _ := net.ParseCIDR(cidr)
+	if _, bits := n.Mask.Size(); bits == 128 {
+		return fmt.Sprintf("%s/122", ip.String())
+	}
+	return fmt.Sprintf("%s/26", ip.String())
+}
+
+const (
+	c28LocalNode  = "verif-node"
+	c28RemoteNode = "verif-remote"
+)
+
+// c28FelixRoutes builds the real calculation graph for the resolved config and feeds it two nodes, the pools and
+// one remote block per pool; it returns the remote-workload routes that reach the dataplane.
+func c28FelixRoutes(cfg *felixconfig.Config, enc felixconfig.Encapsulation, poolKVs []*model.KVPair, ipv int) (map[string]felixproto.IPPoolType, error) {
+	cfg.FelixHostname = c28LocalNode
+	cfg.Encapsulation = enc
+	out := map[string]felixproto.IPPoolType{}
+	es := calc.NewEventSequencer(cfg)
+	es.Callback = func(msg any) {
+		if r, ok := msg.(*felixproto.RouteUpdate); ok && r.Types&felixproto.RouteType_REMOTE_WORKLOAD != 0 {
+			out[r.Dst] = r.IpPoolType
+		}
+	}
+	cg := calc.NewCalculationGraph(es, calc.NewLookupsCache(), cfg, func() {})
+	var ups []api.Update
+	for i, name := range []string{c28LocalNode, c28RemoteNode} {
+		n := internalapi.NewNode()
+		n.Name = name
+		n.Spec.BGP = &internalapi.NodeBGPSpec{IPv4Address: fmt.Sprintf("192.168.0.%d/24", i+1), IPv6Address: fmt.Sprintf("fd00::%d/64", i+1)}
+		ups = append(ups, api.Update{KVPair: model.KVPair{Key: model.ResourceKey{Kind: internalapi.KindNode, Name: name}, Value: n, Revision: "1"}, UpdateType: api.UpdateTypeKVNew})
+	}
+	aff := "host:" + c28RemoteNode
+	for _, kv := range poolKVs {
+		ups = append(ups, api.Update{KVPair: *kv, UpdateType: api.UpdateTypeKVNew})
+		pk := kv.Key.(model.IPPoolKey)
+		blk := c28BlockOf(pk.CIDR.String())
+		_, bn, err := cnet.ParseCIDR(blk)
+		if err != nil {
+			return nil, err
+		}
+		size := 64
+		b := &model.AllocationBlock{CIDR: *bn, Affinity: &aff, Allocations: make([]*int, size)}
+		for o := 0; o < size; o++ {
+			b.Unallocated = append(b.Unallocated, o)
+		}
+		ups = append(ups, api.Update{KVPair: model.KVPair{Key: model.BlockKey{CIDR: netip.MustParsePrefix(blk)}, Value: b, Revision: "1"}, UpdateType: api.UpdateTypeKVNew})
+	}
+	cg.OnUpdates(ups)
+	cg.OnStatusUpdated(api.InSync)
+	cg.Flush()
+	es.Flush()
+	return out, nil
+}
+
+// ---- confd side: a client fed by updates, as the syncer feeds it ----
+
+type c28Bird struct{ c *client }
+
+// c28RealOnUpdates: can the real client.onUpdates be driven in this harness (decided once by a probe)?
+var c28RealOnUpdates bool
+
+func newC28Bird() *c28Bird {
+	c := &client{
+		cache: map[string]string{}, peeringCache: map[string]string{}, cacheRevision: 1, revisionsByPrefix: map[string]uint64{},
+		nodeLabelManager: newNodeLabelManager(), bgpPeers: map[string]*v3.BGPPeer{}, sourceReady: map[string]bool{},
+		nodeListenPorts: map[string]uint16{}, nodeIPs: map[string]struct{}{}, programmedRouteRefCount: map[string]int{},
+		ExternalIPRouteIndex: NewRouteIndex(), ClusterIPRouteIndex: NewRouteIndex(), LoadBalancerIPRouteIndex: NewRouteIndex(),
+		serviceLoadBalancerAggregation: v3.ServiceLoadBalancerAggregationEnabled,
+		configCache:                    map[int]*bgpConfigCache{},
+	}
+	for k, v := range globalDefaults {
+		c.cache[k] = v
+	}
+	c.cache[fmt.Sprintf("/calico/bgp/v1/host/%s/network_v4", NodeName)] = "1.1.1.0/24"
+	return &c28Bird{c: c}
+}
+
+// apply delivers one syncer update: through the real client.onUpdates if that can be driven here, otherwise through
+// the same two calls that onUpdates makes for these resource kinds (updateBGPConfigCache + updateCache).
+func (b *c28Bird) apply(u api.Update) {
+	if c28RealOnUpdates {
+		b.c.onUpdates([]api.Update{u}, false)
+		return
+	}
+	if k, ok := u.Key.(model.ResourceKey); ok && k.Kind == v3.KindBGPConfiguration {
+		v3res, _ := u.Value.(*v3.BGPConfiguration)
+		var b1, b2 bool
+		var reasons []string
+		b.c.updateBGPConfigCache(k.Name, v3res, &b1, &b2, &reasons)
+	}
+	b.c.updateCache(u.UpdateType, &u.KVPair)
+}
+
+// setBGP creates/updates (present) or deletes the named BGPConfiguration; value "" = resource without the field.
+func (b *c28Bird) setBGP(name string, present bool, value string) {
+	u := api.Update{KVPair: model.KVPair{Key: model.ResourceKey{Kind: v3.KindBGPConfiguration, Name: name}}, UpdateType: api.UpdateTypeKVDeleted}
+	if present {
+		bc := v3.NewBGPConfiguration()
+		bc.ObjectMeta = metav1.ObjectMeta{Name: name}
+		if value != "" {
+			v := value
+			bc.Spec.ProgramClusterRoutes = &v
+		}
+		u.Value, u.Revision, u.UpdateType = bc, "1", api.UpdateTypeKVUpdated
+	}
+	b.apply(u)
+}
+
+func (b *c28Bird) kernel(ipv int) ([]string, error) {
+	bcfg := &types.BirdBGPConfig{NodeName: NodeName}
+	if e := b.c.processIPPools(b.c.getBGPProcessorContext(), bcfg, ipv); e != nil {
+		return nil, fmt.Errorf("processIPPools: %v", e)
+	}
+	return bcfg.KernelFilterForIPPools, nil
+}
+
 func (r c28Result) digest() string {
 	var ks []string
 	for k := range r.FelixOwns {
 		ks = append(ks, fmt.Sprintf("%s:F=%v,B=%v", k, r.FelixOwns[k], r.BirdOwns[k]))
 	}
 	sort.Strings(ks)
-	return fmt.Sprintf("%v|%v|ipip=%v noencap=%v|%+v", ks, r.Kernel, r.FelixIPIP, r.FelixNoEncap, r.Encap)
+	var rs []string
+	for k, v := range r.FelixRoutes {
+		rs = append(rs, fmt.Sprintf("%s:%v", k, v))
+	}
+	sort.Strings(rs)
+	return fmt.Sprintf("%v|%v|ipip=%v noencap=%v|%+v|routes=%v", ks, r.Kernel, r.FelixIPIP, r.FelixNoEncap, r.Encap, rs)
+}
+
+// ---- update histories on the confd side (differential oracle: same result as a fresh start in the final state) ----
+
+type c28BState struct {
+	BGP  string // "-" = no default BGPConfiguration resource; "" = resource without the field; else the value
+	Node string // per-node BGPConfiguration node.<this node>: "-" = none, else programClusterRoutes value
+	Pool string // mode of the pool 10.10.0.0/16: "-" absent, "ipip", "noencap", "vxlan"
+}
+
+type c28BEvent struct {
+	Res string // bgp | node | pool
+	Val string
+}
+
+func (e c28BEvent) String() string { return e.Res + ":=" + e.Val }
+
+func c28PoolUpdate(mode string) api.Update {
+	cidr := "10.10.0.0/16"
+	if mode == "-" {
+		return api.Update{KVPair: model.KVPair{Key: model.IPPoolKey{CIDR: netip.MustParsePrefix(cidr)}}, UpdateType: api.UpdateTypeKVDeleted}
+	}
+	pool := v3.NewIPPool()
+	pool.Name = "pool-x"
+	pool.Spec.CIDR = cidr
+	pool.Spec.IPIPMode, pool.Spec.VXLANMode = v3.IPIPModeNever, v3.VXLANModeNever
+	switch mode {
+	case "ipip":
+		pool.Spec.IPIPMode = v3.IPIPModeAlways
+	case "vxlan":
+		pool.Spec.VXLANMode = v3.VXLANModeAlways
+	}
+	kvs, err := updateprocessors.NewIPPoolUpdateProcessor().Process(&model.KVPair{Key: model.ResourceKey{Kind: v3.KindIPPool, Name: pool.Name}, Value: pool, Revision: "1"})
+	if err != nil || len(kvs) != 1 || kvs[0].Value == nil {
+		panic(fmt.Sprintf("pool conversion: %v %d", err, len(kvs)))
+	}
+	return api.Update{KVPair: *kvs[0], UpdateType: api.UpdateTypeKVUpdated}
+}
+
+func (b *c28Bird) event(st *c28BState, e c28BEvent) {
+	switch e.Res {
+	case "bgp":
+		st.BGP = e.Val
+		b.setBGP(globalConfigName, e.Val != "-", e.Val)
+	case "node":
+		st.Node = e.Val
+		b.setBGP(perNodeConfigNamePrefix+NodeName, e.Val != "-", e.Val)
+	case "pool":
+		st.Pool = e.Val
+		b.apply(c28PoolUpdate(e.Val))
+	}
+}
+
+func c28FreshBird(st c28BState) *c28Bird {
+	b := newC28Bird()
+	b.apply(c28StaticPool())
+	var s c28BState
+	if st.BGP != "-" {
+		b.event(&s, c28BEvent{"bgp", st.BGP})
+	}
+	if st.Node != "-" {
+		b.event(&s, c28BEvent{"node", st.Node})
+	}
+	if st.Pool != "-" {
+		b.event(&s, c28BEvent{"pool", st.Pool})
+	}
+	return b
+}
+
+// a second, unencapsulated pool that is always present
+func c28StaticPool() api.Update {
+	pool := v3.NewIPPool()
+	pool.Name = "pool-static"
+	pool.Spec.CIDR = "10.14.0.0/16"
+	pool.Spec.IPIPMode, pool.Spec.VXLANMode = v3.IPIPModeNever, v3.VXLANModeNever
+	kvs, err := updateprocessors.NewIPPoolUpdateProcessor().Process(&model.KVPair{Key: model.ResourceKey{Kind: v3.KindIPPool, Name: pool.Name}, Value: pool, Revision: "1"})
+	if err != nil || len(kvs) != 1 {
+		panic("static pool conversion")
+	}
+	return api.Update{KVPair: *kvs[0], UpdateType: api.UpdateTypeKVNew}
+}
+
+func c28Histories(c *vk.Ctx) {
+	var events []c28BEvent
+	for _, v := range append([]string{"-"}, c28Settings...) {
+		events = append(events, c28BEvent{"bgp", v})
+	}
+	for _, v := range []string{"-", "Enabled", "Disabled"} {
+		events = append(events, c28BEvent{"node", v})
+	}
+	for _, v := range []string{"-", "ipip", "noencap", "vxlan"} {
+		events = append(events, c28BEvent{"pool", v})
+	}
+	depth := c.Pick(3, 4)
+	c.Extra("confd_history_alphabet", fmt.Sprint(events))
+	c.Extra("confd_history_depth", depth)
+	freshCache := map[c28BState]string{}
+	fresh := func(st c28BState) string {
+		if v, ok := freshCache[st]; ok {
+			return v
+		}
+		k, err := c28FreshBird(st).kernel(4)
+		c.Add("transitions", 1)
+		v := fmt.Sprintf("%v|%v", k, err)
+		freshCache[st] = v
+		return v
+	}
+	var rec func(hist []c28BEvent)
+	rec = func(hist []c28BEvent) {
+		if len(hist) > 0 {
+			// replay on a fresh client (no shared state between histories)
+			b := newC28Bird()
+			b.apply(c28StaticPool())
+			st := c28BState{"-", "-", "-"}
+			var perr error
+			got := ""
+			perr = vk.Catch(func() error {
+				for _, e := range hist {
+					b.event(&st, e)
+				}
+				k, err := b.kernel(4)
+				got = fmt.Sprintf("%v|%v", k, err)
+				return nil
+			})
+			c.Add("states", 1)
+			c.Add("transitions", int64(len(hist)))
+			last := hist[len(hist)-1]
+			if perr != nil {
+				c.Violation("C28:confd-update-history-panics", map[string]any{"history": fmt.Sprint(hist), "panic": perr.Error()})
+				return
+			}
+			want := fresh(st)
+			if len(hist) >= 2 {
+				c.Nontrivial("hist|" + fmt.Sprint(hist))
+			}
+			c.Outcome(fmt.Sprintf("history|final=%+v|equal=%v", st, got == want))
+			if got != want {
+				kind := "set"
+				if last.Val == "-" {
+					kind = "delete"
+				}
+				c.Violation(fmt.Sprintf("C28:bird-filter-after-update-history-differs-from-fresh-start:%s-%s", last.Res, kind), map[string]any{
+					"history": fmt.Sprint(hist), "final_state": st, "kernel_filter_after_history": got, "kernel_filter_fresh_start": want})
+				return
+			}
+		}
+		if len(hist) == depth || c.Expired() {
+			return
+		}
+		for _, e := range events {
+			rec(append(append([]c28BEvent{}, hist...), e))
+		}
+	}
+	rec(nil)
+	if c.Expired() {
+		c.Capped("deadline in confd histories")
+	}
 }
 
 func TestVerif_C28(t *testing.T) {
 	vk.Run(t, "C28", func(c *vk.Ctx) {
 		logrus.SetLevel(logrus.PanicLevel)
 		logrus.StandardLogger().ExitFunc = func(int) { panic("logrus.Fatal") }
-		NodeName = "verif-node"
+		NodeName = c28LocalNode
+		// Can the real client.onUpdates be driven with a client built like NewCalicoClient builds it?
+		probe := vk.Catch(func() error {
+			c28RealOnUpdates = true
+			b := newC28Bird()
+			b.setBGP(globalConfigName, true, "Enabled")
+			b.setBGP(globalConfigName, false, "")
+			_, err := b.kernel(4)
+			return err
+		})
+		if probe != nil {
+			c28RealOnUpdates = false
+		}
+		c.Extra("confd_real_onUpdates_driven", c28RealOnUpdates)
 		c.Rule("Felix setting x BGP setting, each in {absent, Enabled, Disabled, EnabledIPIPOnly, EnabledNoEncapOnly, unrecognised} (36 pairings) x every subset of 6 IP pool shapes " +
-			"(no-encap Never/Never and unset/unset, IPIP Always and CrossSubnet, VXLAN Always and CrossSubnet; IPv6: the 4 non-IPIP shapes) x IP version {4,6} x disableBGPExport {false,true}. " +
+			"(no-encap Never/Never and unset/unset, IPIP Always and CrossSubnet, VXLAN Always and CrossSubnet; IPv6: the 4 non-IPIP shapes) x IP version {4,6} x disableBGPExport {false,true}; Felix's side includes the real calculation graph (does a remote-workload route for a block of the pool reach the dataplane). " +
+			"confd update histories: every sequence up to depth 3 (thorough 4) over {default BGPConfiguration := absent|6 values, per-node BGPConfiguration := absent|Enabled|Disabled, pool 10.10.0.0/16 := absent|ipip|noencap|vxlan}, after every prefix the kernel filter must equal that of a fresh client in the same final state. " +
 			"Non-trivial = at least one pool of a configurable class (IPIP/no-encap) is present.")
-		c.Assume("Felix's dataplane uses the two accessors and config.Encapsulation as documented in design/cluster-route-programming/DESIGN.md §2 (driver.go copies them; no-encap manager iff ProgramNoEncapClusterRoutes && NoEncapNeeded; IPIP manager programs routes iff ProgramIPIPClusterRoutes && IPIP enabled; VXLAN manager iff VXLAN enabled). That glue in felix/dataplane/linux is not executed here.")
+		c.Assume("Felix programs a pool's cluster routes iff the real calculation graph emits a remote-workload RouteUpdate of the pool's type for a block of the pool AND the dataplane manager for that type consumes it (driver.go copies the accessors; no-encap manager iff ProgramNoEncapClusterRoutes && NoEncapNeeded; IPIP manager programs routes iff ProgramIPIPClusterRoutes && IPIP enabled; VXLAN manager iff VXLAN enabled). Only that last manager gate in felix/dataplane/linux is mirrored, not executed.")
 		c.Assume("BIRD evaluates filter calico_kernel_programming top-down, first matching statement decides, final 'accept' (bird_ipam.cfg.template); the local subnet is known (IPv4).")
 		unsupported := map[string]string{}
 		sampled := 0
@@ -323,7 +625,7 @@ func TestVerif_C28(t *testing.T) {
 								if who != want {
 									key := "C28:" + p.Class + "-pool-programmed-by-" + strings.ToLower(who)
 									c.Violation(key, map[string]any{"case": cs, "pool": names[i], "cidr": cidr, "want_owner": want, "got": who,
-										"felix": map[string]any{"ProgramIPIPClusterRoutes": res.FelixIPIP, "ProgramNoEncapClusterRoutes": res.FelixNoEncap, "Encapsulation": fmt.Sprintf("%+v", res.Encap)},
+										"felix":              map[string]any{"ProgramIPIPClusterRoutes": res.FelixIPIP, "ProgramNoEncapClusterRoutes": res.FelixNoEncap, "Encapsulation": fmt.Sprintf("%+v", res.Encap)},
 										"bird_kernel_filter": res.Kernel})
 								}
 							}
@@ -353,6 +655,7 @@ func TestVerif_C28(t *testing.T) {
 			}
 		}
 		c.Extra("unsupported_pairings_observed_owner", unsupported)
+		c28Histories(c)
 
 		// Observation only (not part of the statement): a value differing from an enum value by case is
 		// recognised by Felix (case-insensitive oneof) but not by confd (case-sensitive switch).
